@@ -35,7 +35,10 @@ def events(seed=0, K=9):
     ev = kin.lattice3(zoo.M_TOP, ms, K, seed=seed, orientations=2)
     n = len(ev[0])
     # decorrelate the order deterministically
-    perm = (np.arange(n) * 7 + 3) % n if math.gcd(7, n) == 1 else np.arange(n)[::-1]
+    # (a stride coprime to n: the two orientations of one Dalitz point must not end up next to each other - for spinless
+    # final states they have the same density, which would make neighbouring events indistinguishable)
+    stride = next(k for k in (7, 5, 9, 11, 13, 17, 19, 23) if math.gcd(k, n) == 1)
+    perm = (np.arange(n) * stride + 3) % n
     return [a[perm] for a in ev]
 
 
